@@ -1248,3 +1248,72 @@ def b16_path_steps_filtered_by_equivalence(ctx) -> None:
             other = sorted(t for t, p_ in gs if t.startswith(f"{r}."))
             ctx.violation("B16", y, f"a step of an equivalence path is kept under {other or 'no test'}, not under `not {r}.is_equivalence()`: the steps compared are not the "
                           "rules the two specifications will show outside their equivalence paths, and a non-isomorphic pair is returned")
+
+
+def b21_param_match_consults_both_sides(ctx) -> None:
+    """`Constructor.extra_params_equiv(params1, params2)` and `_extra_params_match_single(par1, par2)`
+    decide whether two constructors carry matching statistics; the matcher calls them with the two
+    sides in either order.  An answer other than a literal False must depend -- through the
+    tests it is reached under, or through its own value -- on *both* arguments: an exit taken
+    after looking at one side only declares every other side equivalent to it (and makes the
+    test asymmetric: (a, b) and (b, a) disagree)."""
+    P = ctx.P
+    n = 0
+    for name in ("extra_params_equiv", "_extra_params_match_single"):
+        m = P.need_method("Constructor", name, own=True)
+        f = m.node
+        ctx.analysed(m)
+        ps = [p_ for p_ in m.params() if p_ not in ("self", "cls")]
+        if len(ps) != 2:
+            raise AnalysisError(f"B21: Constructor.{name} no longer takes the two sides as its two arguments")
+        # names derived from each argument (assignments, loop targets, with-as; to a fixed point)
+        taint: Dict[str, Set[str]] = {ps[0]: {ps[0]}, ps[1]: {ps[1]}}
+
+        def srcs(e) -> Set[str]:
+            out: Set[str] = set()
+            # a comprehension's own variable is local to it: it stands for its iterable, which is walked anyway
+            bound = {y.id for x in ast.walk(e) if isinstance(x, ast.comprehension) for y in ast.walk(x.target) if isinstance(y, ast.Name)}
+            for x in ast.walk(e):
+                if isinstance(x, ast.Name) and x.id in taint and x.id not in bound:
+                    out |= taint[x.id]
+            return out
+        changed = True
+        while changed:
+            changed = False
+            for s in walk_local(f):
+                pairs = []
+                if isinstance(s, ast.Assign):
+                    pairs = [(t, s.value) for t in s.targets]
+                elif isinstance(s, (ast.AnnAssign, ast.AugAssign)) and s.value is not None:
+                    pairs = [(s.target, s.value)]
+                elif isinstance(s, ast.NamedExpr):
+                    pairs = [(s.target, s.value)]
+                elif isinstance(s, ast.For):
+                    pairs = [(s.target, s.iter)]
+                for t, v in pairs:
+                    got = srcs(v)
+                    for x in ast.walk(t):
+                        if isinstance(x, ast.Name):
+                            old = taint.get(x.id, set())
+                            if not got <= old:
+                                taint[x.id] = old | got
+                                changed = True
+        rets = [r for r in C.returns_of(f) if r.value is not None]
+        if not rets:
+            raise AnalysisError(f"B21: Constructor.{name} no longer answers")
+        for r in rets:
+            if isinstance(r.value, ast.Constant) and r.value.value is False:
+                continue
+            n += 1
+            seen = srcs(r.value)
+            for t, _pol in C.guards(f, r):
+                seen |= srcs(t)
+            missing = [p_ for p_ in ps if p_ not in seen]
+            if missing:
+                ctx.violation("B21", r, f"Constructor.{name} answers `{norm(r.value)[:40]}` on a path that never looks at `{missing[0]}`: every value of that side is "
+                              "declared a match for the other one, and the answer changes when the matcher swaps the sides -- constructors with different numbers "
+                              "of statistics are paired and the bijection transports parameters that do not exist on the other side")
+            else:
+                ctx.ok("B21", f"Constructor.{name}: the answer at line {r.lineno} depends on both sides")
+    if n == 0:
+        raise AnalysisError("B21: no affirmative exit found in the parameter matchers")
